@@ -3,7 +3,7 @@
    hand-written specification side; `spec_item` (Suit/SpecEnc.v) is the declarative description -> item function that
    the implementation's bytes are compared with on every run. *)
 Require Import Coq.Strings.String.
-From Verif Require Import Base.Prim Base.Str Cbor.Codec Cbor.CodecFacts Suit.Py Suit.PyFacts Suit.Ty Suit.Interp Suit.Tables Suit.Digest
+From Verif Require Import Base.Prim Base.Str Cbor.Codec Cbor.CodecFacts Cbor.DecodeSound Suit.Py Suit.PyFacts Suit.Ty Suit.Interp Suit.Tables Suit.Digest
                           Suit.Embed Suit.SpecTypes Suit.SpecEnc gen.GenTypes gen.GenSpec.
 Open Scope Z_scope.
 
@@ -44,6 +44,20 @@ Print Assumptions serialisation_exact.
 Theorem serialisation_injective a b : wf a -> wf b -> encode a = encode b -> a = b.
 Proof. exact (encode_injective a b). Qed.
 Print Assumptions serialisation_injective.
+
+(* 3b. the decoder side of the codec: whatever the model of cbor2.loads returns for real bytes is a well-formed item
+       (arguments and lengths below 2^64), so decoding, re-encoding canonically and decoding again is stable — for EVERY byte
+       string, canonical or not (non-shortest heads, indefinite-length maps) *)
+Theorem decoded_items_well_formed b c : bytes_ok b -> loads b = Some c -> wf c.
+Proof. exact (loads_sound b c). Qed.
+Print Assumptions decoded_items_well_formed.
+
+Theorem decode_reencode_decode_stable b c : bytes_ok b -> loads b = Some c -> loads (encode c) = Some c.
+Proof. exact (reencode_stable b c). Qed.
+Print Assumptions decode_reencode_decode_stable.
+
+Example non_canonical_input_is_decoded : loads [25; 0; 5] = Some (CUint 5) /\ encode (CUint 5) = [5].
+Proof. split; vm_compute; reflexivity. Qed.
 
 (* 4. node level (any table): a named member is written under its registered integer; `bstr .cbor` is exactly one
       byte-string layer *)
